@@ -70,7 +70,8 @@ M2Order == << "name", "global_sequences", "animations", "animation_lookup", "bon
 SkinOrder == << "indices", "triangles", "bone_indices", "submeshes", "batches" >>
 AnimOrder == << "sec1", "sec2", "sec3" >>
 SecOrder(fmt) == CASE fmt = "m2" -> M2Order [] fmt = "anim" -> AnimOrder [] OTHER -> SkinOrder
-SecSet(fmt)   == {SecOrder(fmt)[j] : j \in 1..Len(SecOrder(fmt))}
+SecSetTab == [fmt \in {"m2", "skin_old", "skin_new", "anim"} |-> {SecOrder(fmt)[j] : j \in 1..Len(SecOrder(fmt))}]
+SecSet(fmt)   == SecSetTab[fmt]
 AllSecs == SecSet("m2") \cup SecSet("skin_old") \cup SecSet("anim")
 
 \* sections whose records carry key-frame tracks (relocated blobs follow the records)
@@ -82,10 +83,11 @@ TracksOf(sec) == CASE sec = "bones" -> 3 [] sec = "particle_emitters" -> 10 [] s
                    [] sec = "transparency_animations" -> 1 [] sec = "events" -> 1 [] sec = "attachments" -> 1
                    [] sec = "cameras" -> 3 [] sec = "lights" -> 5 [] OTHER -> 0
 
-RecBytes(fmt, sec, vn) ==
+VNums == {256, 260, 264, 272}
+RecBytesRaw(fmt, sec, vn) ==
   IF fmt = "anim" THEN 1 ELSE
   IF fmt # "m2" THEN (CASE sec = "indices" -> 2 [] sec = "triangles" -> 2 [] sec = "bone_indices" -> 4
-                        [] sec = "submeshes" -> SubmeshBytes [] sec = "batches" -> BatchBytes) ELSE
+                        [] sec = "submeshes" -> SubmeshBytes [] sec = "batches" -> BatchBytes [] OTHER -> 1) ELSE
   CASE sec = "name" -> 1
     [] sec = "global_sequences" -> 4
     [] sec = "animations" -> AnimRecBytes(vn)
@@ -105,12 +107,15 @@ RecBytes(fmt, sec, vn) ==
     [] sec = "cameras" -> CameraBytes(vn)
     [] sec = "lights" -> LightBytes
     [] OTHER -> 2                                                \* every lookup table: u16
+\* zero-arity tables: TLC evaluates them once (operators with parameters are re-evaluated per state)
+RecBytesTab == [fmt \in Formats |-> [sec \in AllSecs |-> [vn \in VNums |-> RecBytesRaw(fmt, sec, vn)]]]
+RecBytes(fmt, sec, vn) == RecBytesTab[fmt][sec][vn]
 
 \* What the writer adds to its cursor per record: the literal constants and thresholds of the code /
 \* of the property text.  `SubmeshStep` is a constant of the instance so that the as-coded value of
 \* skin.rs (40) can be model-checked as a named deviation (MC_M2Layout_dev.cfg).
 CONSTANT SubmeshStep
-CursorStep(fmt, sec, vn) ==
+CursorStepRaw(fmt, sec, vn) ==
   IF fmt = "m2" /\ sec = "animations" THEN (IF vn <= 256 THEN 32 ELSE 52) ELSE
   IF fmt = "m2" /\ sec = "bones" THEN (IF vn < 260 THEN 108 ELSE IF vn < 264 THEN 112 ELSE 88) ELSE
   IF fmt = "m2" /\ sec = "vertices" THEN 48 ELSE
@@ -118,7 +123,9 @@ CursorStep(fmt, sec, vn) ==
   IF fmt = "m2" /\ sec = "materials" THEN 4 ELSE
   IF fmt = "m2" /\ sec = "views" THEN 44 ELSE
   IF fmt \in {"skin_old", "skin_new"} /\ sec = "submeshes" THEN SubmeshStep ELSE
-  RecBytes(fmt, sec, vn)                     \* all others: the writer measures what it serialised
+  RecBytesRaw(fmt, sec, vn)                  \* all others: the writer measures what it serialised
+CursorStepTab == [fmt \in Formats |-> [sec \in AllSecs |-> [vn \in VNums |-> CursorStepRaw(fmt, sec, vn)]]]
+CursorStep(fmt, sec, vn) == CursorStepTab[fmt][sec][vn]
 
 \* ---------------------------------------------------------------------------------------------
 \* headers: field order, presence by version, position of every (count, offset) pair
@@ -149,7 +156,9 @@ AnimHdr == << <<"magic", 4>>, <<"version", 4>>, <<"id_count", 4>>, <<"unknown", 
               <<"id1", 4>>, <<"sec1", ArrB>>, <<"id2", 4>>, <<"sec2", ArrB>>, <<"id3", 4>>, <<"sec3", ArrB>> >>
 HdrFields(fmt, vn) == CASE fmt = "m2" -> M2HdrFields(vn) [] fmt = "skin_old" -> SkinOldHdr
                         [] fmt = "skin_new" -> SkinNewHdr [] fmt = "anim" -> AnimHdr
-HeaderSize(fmt, vn) == Sum([j \in 1..Len(HdrFields(fmt, vn)) |-> HdrFields(fmt, vn)[j][2]])
+HeaderSizeRaw(fmt, vn) == LET hf == HdrFields(fmt, vn) IN Sum([j \in 1..Len(hf) |-> hf[j][2]])
+HeaderSizeTab == [fmt \in Formats |-> [vn \in VNums |-> HeaderSizeRaw(fmt, vn)]]
+HeaderSize(fmt, vn) == HeaderSizeTab[fmt][vn]
 HdrPos(fmt, vn, sec) ==
   LET hf == HdrFields(fmt, vn)
       idx == CHOOSE j \in 1..Len(hf) : hf[j][1] = sec
@@ -161,7 +170,8 @@ HasPair(fmt, vn, sec) == /\ \E j \in 1..Len(HdrFields(fmt, vn)) : HdrFields(fmt,
 DocHeaderSize(vn) == IF vn <= 263 THEN 324 ELSE 304
 
 \* sections a version can hold at all (embedded skins exist only up to TBC)
-Writable(fmt, vn) == IF fmt = "m2" THEN {sec \in SecSet("m2") : sec # "views" \/ vn <= 263} ELSE SecSet(fmt)
+WritableTab == [fmt \in Formats |-> [vn \in VNums |-> IF fmt = "m2" THEN {sec \in SecSet("m2") : sec # "views" \/ vn <= 263} ELSE SecSet(fmt)]]
+Writable(fmt, vn) == WritableTab[fmt][vn]
 \* sections whose content both versions can represent (conservative: everything except the embedded
 \* skin profiles, which moved to .skin files in WotLK)
 Representable(va, vb) == Writable("m2", VerNum(va)) \cap Writable("m2", VerNum(vb))
@@ -209,22 +219,34 @@ WriteHeader ==
 CurSec == SecOrder(mfmt)[msec]
 SecDone == msec > Len(SecOrder(mfmt))
 
-\* one action per section: records of an empty section are not written and its pair is (0,0); a populated
-\* section gets (count, cursor), its records are appended and the cursor advances by count * CursorStep
+\* number of records the writer will emit for a section in the current version
+CntOf(sec) == IF sec \in Writable(mfmt, vnum) THEN mshape[sec] ELSE 0
+
+\* empty sections: nothing is emitted, the pair is (0,0), the cursor does not move.  A maximal run of
+\* consecutive empty sections is one step (keeps the exhaustive model small; each populated section below
+\* is a step of its own).
+WriteEmptyRun ==
+  /\ mpc = "sec" /\ ~SecDone /\ CntOf(CurSec) = 0
+  /\ LET order == SecOrder(mfmt)
+         stop == CHOOSE j \in msec..Len(order) :
+                    /\ \A q \in msec..j : CntOf(order[q]) = 0
+                    /\ (j = Len(order) \/ CntOf(order[j + 1]) > 0)
+     IN  /\ msec' = stop + 1
+         /\ mhdr' = [sec \in AllSecs |-> IF \E q \in msec..stop : order[q] = sec THEN <<0, 0>> ELSE mhdr[sec]]
+  /\ UNCHANGED <<mfmt, mver, mshape, mtail, mpc, mcur, memit, mtrk, mfile, mparsed, mgen, mfirst>>
+
+\* one action per populated section: the pair becomes (count, cursor), the records are appended and the
+\* cursor advances by count * CursorStep
 WriteSection(sec) ==
-  /\ mpc = "sec" /\ ~SecDone /\ sec = CurSec
-  /\ LET cnt == IF sec \in Writable(mfmt, vnum) THEN mshape[sec] ELSE 0
+  /\ mpc = "sec" /\ ~SecDone /\ sec = CurSec /\ CntOf(sec) > 0
+  /\ LET cnt == CntOf(sec)
          emitted == cnt * RecBytes(mfmt, sec, vnum)
-     IN  IF cnt = 0
-         THEN /\ mhdr' = [mhdr EXCEPT ![sec] = <<0, 0>>]
-              /\ msec' = msec + 1
-              /\ UNCHANGED <<mcur, memit, mfile, mpc>>
-         ELSE /\ mhdr' = [mhdr EXCEPT ![sec] = <<cnt, mcur>>]
-              /\ mfile' = Append(mfile, [own |-> sec, start |-> memit, len |-> emitted])
-              /\ memit' = memit + emitted
-              /\ mcur' = mcur + cnt * CursorStep(mfmt, sec, vnum)
-              /\ IF mtail[sec] > 0 THEN mpc' = "tail" /\ msec' = msec
-                                   ELSE mpc' = "sec" /\ msec' = msec + 1
+     IN  /\ mhdr' = [mhdr EXCEPT ![sec] = <<cnt, mcur>>]
+         /\ mfile' = Append(mfile, [own |-> sec, start |-> memit, len |-> emitted])
+         /\ memit' = memit + emitted
+         /\ mcur' = mcur + cnt * CursorStep(mfmt, sec, vnum)
+         /\ IF mtail[sec] > 0 THEN mpc' = "tail" /\ msec' = msec
+                              ELSE mpc' = "sec" /\ msec' = msec + 1
   /\ UNCHANGED <<mfmt, mver, mshape, mtail, mtrk, mparsed, mgen, mfirst>>
 
 \* relocation of key-frame blobs (bones, emitters, animations, events, attachments, cameras, lights), of the
@@ -280,7 +302,7 @@ Convert(v2) ==
                 [sec \in AllSecs |-> IF sec \in Representable(mver, v2) THEN ParsedTail[sec] ELSE 0],
                 2, Snapshot)
 
-Step == \/ WriteHeader
+Step == \/ WriteHeader \/ WriteEmptyRun
         \/ \E sec \in AllSecs : WriteSection(sec)
         \/ \E sec \in AllSecs : RelocateTail(sec)
         \/ Finish \/ Parse \/ Rewrite
